@@ -593,9 +593,12 @@ def fmt_verb(verb, v):
 class Denote:
     """structural meaning of a template: the exact bytes Render must write"""
 
-    def __init__(self, file, objs=None):
+    def __init__(self, file, objs=None, attr_space=True):
+        """attr_space=False gives the document as the code is built today: the list of an @attributes command is written without the
+        blank that separates it from what precedes it (known finding F38)"""
         self.templates = {t["name"]: t for t in file["templates"]}
         self.objs = objs or []
+        self.attr_space = attr_space
 
     def pieces(self, ps, env, loc, escaped, static_escape=False):
         out = []
@@ -689,8 +692,10 @@ class Denote:
                     entries += ['%s="%s"' % (esc(k), esc(v)) for k, v in env["M"].items() if v != ""]
                 else:
                     entries += [esc(k) for k, v in env["MB"].items() if v]
-            out += " ".join(sorted(entries, key=lambda s: s.encode("utf-8")))
-            # note: BuildAttributeList's result is written without a leading space by the generated code
+            if entries:
+                # the list is a run of attributes: a blank separates it from the tag name or the attribute before it
+                # (compiler/testdata/attributes.html); the generated code writes none (F38): attr_space=False
+                out += (" " if self.attr_space else "") + " ".join(sorted(entries, key=lambda s: s.encode("utf-8")))
         return out
 
     def nodes(self, nodes, env, loc, children):
